@@ -402,4 +402,45 @@ theorem missed_code_stripped_counterexample :
 example : (run (env0 ['x', ';', '\n', 'a', ' ', ' ', '\n', 'y']) .withIndent 7 (vis0 ['x', ';'] 2)).map
     (·.buffer) = some ['x', ';', '\n', 'a', ' ', ' ', '\n', ' ', ' ', ' ', ' '] := by decide +kernel
 
+/-! ## close_block: the comments in front of a closing brace (C03, C16) -/
+
+/-- `close_block(span, unindent_comment)` on a span cut out of the file's text on character boundaries
+never panics (`block_unindent` is guarded, every slice is on a boundary), provided
+`hard_tabs → tab_spaces ≥ 1`. -/
+theorem close_block_no_panic (env : Env) (pre snippet post : List Char)
+    (hbig : env.big = pre ++ snippet ++ post) (unindentComment : Bool) (v : Vis)
+    (hts : env.config.hard_tabs = true → 1 ≤ env.config.tab_spaces) :
+    (closeBlock env (utf8Len pre) (utf8Len pre + utf8Len snippet) unindentComment v).isSome = true := by
+  obtain ⟨v', o, h, _⟩ := closeBlock_spec env hts pre snippet post hbig unindentComment v
+  rw [h]; rfl
+
+/-- What `close_block` writes is, blanks aside, the comments of the snippet, the code in it that is more
+than `;`, and the closing brace — in this order, nothing dropped, nothing added (when the comment
+rewriter keeps the non-blank characters of a comment). -/
+theorem close_block_content (env : Env) (pre snippet post : List Char)
+    (hbig : env.big = pre ++ snippet ++ post) (unindentComment : Bool) (v v' : Vis)
+    (hts : env.config.hard_tabs = true → 1 ≤ env.config.tab_spaces) (hrc : RcContent env.rc)
+    (h : closeBlock env (utf8Len pre) (utf8Len pre + utf8Len snippet) unindentComment v = some v') :
+    v'.buffer = v.buffer ++ render (written v v') ∧
+      closeContentOk snippet (render (written v v')) = true := by
+  obtain ⟨v'', o, h', hp, hc⟩ := closeBlock_spec env hts pre snippet post hbig unindentComment v
+  rw [h] at h'; cases h'
+  have hw : written v v' = o := by unfold written; rw [hp.log]; simp
+  rw [hw]
+  exact ⟨hp.buffer, by simp [closeContentOk, hc hrc]⟩
+
+/-- `{ x; /* c */ }`: the comment stays behind the statement, the brace goes to its own line. -/
+example : (closeBlock (env0 ['{', ' ', 'x', ';', ' ', '/', '*', ' ', 'c', ' ', '*', '/', ' ', '}']) 4 13 false
+      (vis0 ['{', ' ', 'x', ';'] 4)).map (·.buffer) =
+    some ['{', ' ', 'x', ';', ' ', '/', '*', ' ', 'c', ' ', '*', '/', '\n', '}'] ∧
+    closeContent [' ', '/', '*', ' ', 'c', ' ', '*', '/', ' '] = ['/', '*', 'c', '*', '/', '}'] := by
+  constructor <;> decide +kernel
+
+/-- A stray `;` in front of the brace is dropped: `closeContent` does not count it. -/
+example : closeContent [' ', ';', ' '] = ['}'] := by decide +kernel
+
+theorem close_block_tab_spaces_zero_counterexample :
+    closeBlock { env0 ['{', '}'] with config := ⟨true, 0, 100, 80⟩ } 1 1 false (vis0 ['{'] 1) = none := by
+  decide +kernel
+
 end RF.Props.MissedSpans
